@@ -617,8 +617,6 @@ package server
 //@   invariant rangeindex + 1 < len(zset.members) ==> forall k int :: 0 <= k && k < len(zset.members) && k != rangeindex + 1 ==> zset.members[k].Member != zset.members[rangeindex + 1].Member
 //@   decreases len(zset.members) - rangeindex
 
-
-
 // ---------------------------------------------------------------- set / sorted set records and handlers
 
 //@ func (*Database).GetSetRecord
